@@ -23,7 +23,8 @@
 // RangeIndex<B,E,int> with B,E in {int, end-k}, AllIndex); ranks 3-6, active arrays and FixedArray use per
 // call either the int family or the end-k family (an int k is then passed as end-(len-1-k)); rank 6 has
 // `__` in the last position only.  Rich index expressions (k-end, end/2, (end-1)/2, ...: the menu XSHAPES of
-// drv_views.h) are compiled for passive ranks 1-3, in one argument per call (drv_views_x*.cpp).
+// drv_views.h) are compiled for passive ranks 1-6 (all shapes for rank 1, 8 for rank 2, 4 for ranks 3-6), in one
+// argument per call (drv_views_x*.cpp).
 // Compile time: the work is split over many translation units, built in parallel by vbuild.
 #include "drv_views.h"
 
